@@ -2,4 +2,5 @@ INIT GInit
 NEXT GNext
 INVARIANT NoSharedSecret
 INVARIANT NoNonceReuse
+INVARIANT ReconfiguredFresh
 CHECK_DEADLOCK FALSE
